@@ -324,6 +324,9 @@ type Session struct {
 	xaID         string // current XA id attached to this connection (ACTIVE/IDLE/PREPARED)
 	lastInsertID uint64
 	autoIncStep  int64
+	// FoundRows: the client asked for CLIENT_FOUND_ROWS at the handshake: UPDATE reports the rows matched, not the
+	// rows changed
+	FoundRows bool
 }
 
 func (e *Engine) NewSession(id int, user string) *Session {
